@@ -27,7 +27,7 @@ CONSTANTS
   Slack = 0
   Bound = 0
   ZonedPanics = FALSE
-INVARIANTS TypeOK MechNat DeadlineMonotone WriteExtends NoEarlyRemoval NoEarlyClose RemoveOnce ReclaimedInTime CloseOnce FastCloseRule Usable AllReclaimed ShutdownReclaimed OnePerClient MetricsLanguage NoCrash HandleTotal FwdAuthentic FwdOnce CreateOnlyValid PktCSound PktTSound
+INVARIANTS TypeOK MechNat DeadlineMonotone WriteExtends NoEarlyRemoval NoEarlyClose RemoveOnce ReclaimedInTime CloseOnce FastCloseRule Usable AllReclaimed ShutdownReclaimed OnePerClient MetricsLanguage NoCrash HandleTotal FwdAuthentic FwdToNamed FwdOnce CreateOnlyValid PktCSound PktTSound
 PROPERTIES FailureIsolated
 VIEW View
 CHECK_DEADLOCK FALSE
